@@ -1,4 +1,4 @@
-import LyModel.Valid.FullLevel
+import LyModel.Valid.FullUB
 /-!
 # C02, full schema language: soundness of everything `lyd_validate` logs for one sibling level and below
 
@@ -192,7 +192,7 @@ theorem elem_sound (X : SchemaX) (o : VOpts) (hl : KidsLookupOk X) (hio : InfoOk
 
 /-! ## the level -/
 
-theorem level_main_step (X : SchemaX) (o : VOpts) (hop : o.operational = false) (hu : X.uniques = [])
+theorem level_main_step (X : SchemaX) (o : VOpts) (hop : o.operational = false) (hU : UniqBridge X o)
     (hq : X.q.implicitInnerCase = false) (hl : KidsLookupOk X) (hio : InfoOk X) (hs : FullSane X o) (fuel : Nat)
     (ih : ∀ f, f < fuel → PipeSound X o f) : PipeSound X o fuel := by
   intro sk ks cx1 cx2 cx3 cxF hfuel hb hls hcx1 hcxF hg hlen e he
@@ -241,7 +241,19 @@ theorem level_main_step (X : SchemaX) (o : VOpts) (hop : o.operational = false) 
         rw [hns, ← hc] at this
         cases this
     · rw [hcxF] at he
-      exact card_sub_spec X o _ sk _ (level_sound X o cxF hop hu F.cnt fuel sk hfuel hls.kinds hls.nodup hls.sane F.sel e he)
+      rcases level_sound X o cxF hop F.cnt fuel sk hfuel hls.kinds hls.nodup hls.sane F.sel e he with
+        h | ⟨hkd, k, hr, hkind, hst, hne⟩
+      · exact card_sub_spec X o _ sk _ h
+      · -- `lyd_validate_unique` on a visited list: the `unique` clause of the specification is violated
+        rw [hkd]
+        apply spec_lift_reach X o _ hr
+        cases k with
+        | mk s i kk =>
+          have hkind : i.kind = .list := hkind
+          have hst : (o.noState && !i.config) = false := hst
+          have hviol := (hU fuel sk ks cx1 cx2 cx3 cxF hfuel hb hls hg hlen s i kk hr.belowL hkind).1 hne
+          rw [specNode_list_mem X o _ _ hkind]
+          exact Or.inr (Or.inr (Or.inr (Or.inr (Or.inr (Or.inl ⟨rfl, hst, hviol⟩)))))
   · -- the final phase below the level
     obtain ⟨n3, hn3, bF, he'⟩ := finalKids_errs_mem X o cxF _ _ e he
     rw [F.tree] at hn3
@@ -250,7 +262,7 @@ theorem level_main_step (X : SchemaX) (o : VOpts) (hop : o.operational = false) 
     exact helem a (F.cases a ha) cx3 cxF b bF e (Or.inr he')
 
 /-- **soundness of one sibling level of `lyd_validate` and everything below it** -/
-theorem level_main_sound (X : SchemaX) (o : VOpts) (hop : o.operational = false) (hu : X.uniques = [])
+theorem level_main_sound (X : SchemaX) (o : VOpts) (hop : o.operational = false) (hU : UniqBridge X o)
     (hq : X.q.implicitInnerCase = false) (hl : KidsLookupOk X) (hio : InfoOk X) (hs : FullSane X o) :
     ∀ (fuel : Nat) (sk : List STree) (ks : List DNode) (cx1 cx2 cx3 cxF : Cx),
       sheightL sk ≤ fuel → (∀ k, BelowL k sk → BelowL k X.top) → LevelSane sk → X.kidsOf cx1.parent = sk → X.kidsOf cxF.parent = sk →
@@ -258,6 +270,6 @@ theorem level_main_sound (X : SchemaX) (o : VOpts) (hop : o.operational = false)
       ∀ e ∈ pipeErrs X o fuel cx1 cx2 cx3 cxF sk ks, e.kind ∈ specL X o sk (explicitL ks) := by
   intro fuel
   induction fuel using Nat.strongRecOn with
-  | _ fuel ih => exact level_main_step X o hop hu hq hl hio hs fuel ih
+  | _ fuel ih => exact level_main_step X o hop hU hq hl hio hs fuel ih
 
 end LyModel.Valid
